@@ -12,9 +12,14 @@ acknowledgement's own element definitions, is accepted" — for the models `Ack.
   `ack997_revalidates`        (3) composition with the text layer (Proofs/C06RevalText.lean), the envelope
                                   (Proofs/C06RevalEnv.lean, C04 `Consistent`) and `Doc.doc_accepts_generated_consistent`:
                                   `validateDoc` on the written text ends with verdict true and no error event
+  `ack997_ak402_not_echo`     AK402 is NOT among the echoed values `EchoFits` speaks about: the writer copies `ele_ref_num` only
+                                  when it is a string of ASCII digits (for an error on a composite it is the composite's id,
+                                  `C022`, and AK402 is numeric), so with reference numbers of at most four characters every
+                                  AK402 is empty or 1..4 digits — the writer's own slot, admissible by `ackDefsOk`
   non-vacuity                 Props/C06RevalExample.lean (kernel-evaluated)
 -/
 import Pyx12Verif.Proofs.C06RevalAdm4
+import Pyx12Verif.Proofs.C06RevalAK402
 import Pyx12Verif.Proofs.C06RevalText
 import Pyx12Verif.Proofs.C06RevalEnv
 
@@ -140,6 +145,29 @@ theorem ack997_values_admissible (ctx : Doc.Ctx) (control : Doc.MapX) (cip : Lis
     obtain ⟨x, hx, rfl⟩ := hb
     exact (ack997_rest_ok ctx control cip m hdefs s p hC hsz hsafe hctl hgs06 hclean hfit isa gs rest hout x hx).2.1
 
+/-- **AK402 is never an echo obligation.**  In a complete 997 of the repaired visitor, when the reference numbers held by the
+    error tree have at most four characters (`RefNumsFit`: they are `data_ele` attributes of the source map, data element
+    numbers or composite ids), element 2 of every AK4 line as the reader sees it is empty or a string of one to four ASCII
+    digits; `KindSpec.own` holds of it, so `EchoFits` (whose clauses are conditional on `own … = false`) asks nothing about it
+    and its admissibility is part of the decidable per-map check `ackDefsOk`.  In particular an element error reported on a
+    COMPOSITE node, whose `ele_ref_num` is the composite's id (`C022`), cannot make the acknowledgement unacceptable. -/
+theorem ack997_ak402_not_echo (s : ErrTree.State) (p : Params) (hC : Complete s) (hclean : EchoSafe s p) (hfit : RefNumsFit s)
+    (isa gs : PSeg) (rest : List PSeg) (hout : (ack997 fixed s p).out = isa :: gs :: rest) :
+    ∀ x ∈ rest, x.id = sAK4 → ∀ c, (toSeg x).elems[1]? = some c →
+      (kindOf x.id).own 1 c = true ∧
+      (c = [[]] ∨ ∃ r, c = [r] ∧ 1 ≤ r.length ∧ r.length ≤ 4 ∧ ∀ ch ∈ r, '0' ≤ ch ∧ ch ≤ '9') := by
+  intro x hx hid c hc
+  refine ⟨ack997_ak402_own s p hC hclean hfit isa gs rest hout x hx hid c hc, ?_⟩
+  obtain ⟨g, hg, st, hst, sg, hsg, e, he, hxe⟩ := ak4_source s p hC isa gs rest hout x hx hid
+  have hnb : NonBare x := (hclean x (by rw [hout]; simp [hx])).2
+  rcases ak402_read e x hxe hnb c hc with h | ⟨r, hr, h2, h3, h4⟩
+  · exact Or.inl h
+  · refine Or.inr ⟨r, h2, List.length_pos_iff.2 h3, hfit g hg st hst sg hsg e he r hr, ?_⟩
+    intro ch hch
+    have := h4 ch hch
+    simp only [isDig, Validation.isDigit, Bool.and_eq_true, decide_eq_true_eq] at this
+    exact this
+
 /-! ## (3) composition -/
 
 theorem gv_single (s : Doc.Seg) (k : Nat) (v : Str) (h : s.elems[k]? = some [v]) : Doc.gv d997 s k = some v := by
@@ -191,7 +219,8 @@ def ackKeysOkOf (K : Consts) (unk : Nat) (m : Doc.MapX) : Bool :=
 Acknowledgement side: `Complete s` (the visitor finds the header values it copies: the hypothesis of `ack_complete`);
 `TrailerSafe` / `IsaPlain` / `EchoSafe` (no copied value contains a delimiter — outside that domain lies the listed finding
 `pred:ack-echo-contains-delimiter`; the ISA fields have the fixed widths and the interchange version is one the reader knows);
-`EchoFits` ("the echoed values fit the acknowledgement's own element definitions"); `WithinRepeatsOf` (the map's repeat limits)
+`EchoFits` ("the echoed values fit the acknowledgement's own element definitions"; AK402 is not one of them:
+`ack997_ak402_not_echo`); `WithinRepeatsOf` (the map's repeat limits)
 and `SizesFit` (counters within their maximal lengths).
 
 Map side: the control map for the echoed interchange version is loadable and has `/ISA_LOOP/ISA`, `/ISA_LOOP/GS_LOOP/GS`, its
